@@ -83,6 +83,9 @@ func init() {
 		config: func(r *Rng, tier string) Config {
 			c := baseConfig(r, "collide", tier)
 			c.CollLimit = []uint32{0, 1, 2, 3, 7, 255, 255}[r.Intn(7)]
+			if r.Chance(0.3) {
+				c.HipShift = uint(r.Range(1, 3)) // collisions through the hash input, default digester
+			}
 			return c
 		},
 		profile: func(r *Rng, cfg Config) *Profile {
@@ -101,7 +104,13 @@ func init() {
 				LargeProb: []float64{0, 0.05}[r.Intn(2)], BoundaryProb: []float64{0.1, 0.4, 0.7}[r.Intn(3)],
 				CompositeProb: 0.1, KeyUniverse: []int{8, 30, 90, 300}[r.Intn(4)], NestedTargetBias: 0.05,
 				MaxElems: []int{12, 60, 200}[r.Pick([]int{1, 3, 2})], GrowBias: 0.6, ChildInit: 3, LongKeyProb: 0.04,
-				DigSpec: func(*Rng) *DigesterSpec { s := spec; return &s },
+				DigSpec: func(*Rng) *DigesterSpec {
+					if cfg.HipShift > 0 {
+						return nil // library's default (pooled) digester; collisions come from the hash input
+					}
+					s := spec
+					return &s
+				},
 			}
 		},
 		check: func(w *World, final bool) *Violation {
